@@ -41,6 +41,7 @@ type Case struct {
 	Dumps    []*Dump `json:"dumps"`
 	Oracle   []Fail  `json:"oracle"`
 	NonTriv  bool    `json:"nontrivial"`
+	Panic    string  `json:"panic,omitempty"`
 }
 
 type World struct {
@@ -66,7 +67,7 @@ func (w *World) exec(c Cmd) (res int) {
 	func() {
 		defer func() {
 			if r := recover(); r != nil {
-				fmt.Fprintf(os.Stderr, "c16: panic in %s on %+v: %v\n", w.cs.Name, c, r)
+				w.cs.Panic = fmt.Sprint(r) // (stderr is merged into stdout by the driver: never write there)
 				res = 2
 			}
 		}()
